@@ -26,6 +26,17 @@ check("C17",
       "Lean 4 proof over hand-written model + differential correspondence (line protocol) + direct round-trip exploration",
       "DESIGN.md §4 C17")
 
+check("C16",
+      "Theorems (Lean, every string): the writestr/writef gate check_archive_path equals an independent definition "
+      "(resolve '..' component-wise against a virtual root; reject iff absolute or climbing out); what "
+      "_sanitize_archive_arcname lets through and the name stored for it are never absolute; counter-example theorem "
+      "for the pinned probe-directory variant (finding F5, repaired). pathlib parsing, canonical_path, "
+      "get_sanitized_output_path, _sanitize_archive_arcname are tied to helpers.py/py7zr.py by an exhaustive stream over "
+      "the property's component alphabet (<=5/6 components) + probe-path and Unicode names; the verdict of the real "
+      "function is compared with the Lean oracle on every name; writestr/writef/write/writeall exercised end to end.",
+      "Lean 4 proof (oracle equivalence by induction over components) + exhaustive differential correspondence + API exploration",
+      "DESIGN.md §4 C16")
+
 ALL = ["C%02d" % i for i in range(1, 21)]
 REASON_PENDING = "not yet claimed in this revision: model/theorems/correspondence for it are still being built (see DESIGN.md §8.3 staging)"
 
